@@ -116,6 +116,12 @@ def gen_history(rng):
         r = rng.random()
         if r < 0.22:
             ops.append(['is_bearable', rng.choice(HINTS), rng.choice(OBJS)])
+            if rng.random() < 0.3:
+                # both door functions about one hint, the same explicit exception_prefix given to each, in either order
+                h, o2, pre = ops[-1][1], rng.choice(OBJS), rng.choice(['lib.check() ', 'is_bearable() ', 'die_if_unbearable() '])
+                ops[-1].append(pre)
+                pair = ['die', h, o2, pre]
+                ops.insert(len(ops) - 1, pair) if rng.random() < 0.5 else ops.append(pair)
         elif r < 0.32:
             ops.append(['die', rng.choice(HINTS), rng.choice(OBJS)])
         elif r < 0.45:
